@@ -1,10 +1,33 @@
 //! idmsim engine. See /verif/DESIGN.md section 2 and /verif/harness/AGENT_GUIDE.md.
+#[macro_use]
+extern crate kanidmd_lib;
+
+mod c27;
+mod c32;
+mod c33;
+mod c36;
+mod c49;
+mod probe;
+mod sim;
 
 fn main() {
     let args = kvcore::parse_args();
+    // a replay file names a witness; the runs are deterministic in (tier, seed), which the file
+    // records, so the witness is shown and the same tier/seed is re-run
+    if let Some(p) = &args.replay {
+        if let Some(w) = kvcore::run::load_replay(p) {
+            println!("replay witness: {w}");
+        }
+    }
     match args.prop.as_str() {
+        "C27" => c27::run(args),
+        "C32" => c32::run(args),
+        "C33" => c33::run(args),
+        "C36" => c36::run(args),
+        "C49" => c49::run(args),
+        "PROBE" => probe::run(args),
         p => {
-            println!("INCONCLUSIVE property={p} reason=idmsim does not serve this property yet");
+            println!("INCONCLUSIVE property={p} reason=idmsim does not serve this property");
             std::process::exit(2);
         }
     }
